@@ -448,6 +448,9 @@ pub fn check_counts(g: &G, m: &Model, prop: &'static str, exact_weights: bool) -
     if m.edges.iter().any(|e| e.is_loop()) && d {
         ctx::count("reach:directed-graph-with-self-loop");
     }
+    if m.nodes.iter().any(|(x, _)| m.edges.iter().filter(|e| e.is_loop() && &e.u == x).count() >= 2) {
+        ctx::count("reach:node-with-parallel-self-loops");
+    }
     if m.specs.multi && me > m.edges.iter().map(|e| if !d && e.u > e.v { (e.v.clone(), e.u.clone()) } else { (e.u.clone(), e.v.clone()) }).collect::<BTreeSet<_>>().len() {
         ctx::count("reach:multigraph-with-parallel-edges");
     }
@@ -547,6 +550,10 @@ pub fn run_c09(a: &Args) {
         if rng.coin() {
             let u = names[0].clone();
             ops.push(Op::AddEdge(MEdge::new(&u, &u, draw_weight(wmode, &mut rng), None)));
+            if rng.coin() {
+                // a second (parallel) self-loop on the same node
+                ops.push(Op::AddEdge(MEdge::new(&u, &u, draw_weight(wmode, &mut rng), None)));
+            }
             let v = names[names.len() - 1].clone();
             ops.push(Op::AddEdge(MEdge::new(&v, &u, draw_weight(wmode, &mut rng), None)));
             ops.push(Op::AddEdge(MEdge::new(&u, &v, draw_weight(wmode, &mut rng), None)));
